@@ -42,6 +42,7 @@ package lexer
 //@   params lx
 
 //@ func Upgrade [C12 C10 C15]
+//@   no-recursion
 //@   requires lex != nil
 //@   ensures result1 == nil ==> result0 != nil && fresh(result0) && plInv(result0) && result0.rawCursor == 0 && result0.cursor == 0
 //@   ensures result1 == nil ==> forall(t, result0.elide[t] == exists(i, 0, len(elide), elide[i] == t))
@@ -77,6 +78,7 @@ package lexer
 //@   ensures result != nil && result == &p.tokens[p.rawCursor]
 
 //@ func (*PeekingLexer).Next [C12 C10 C06]
+//@   no-recursion
 //@   requires plInv(p)
 //@   modifies p.Checkpoint
 //@   ensures plInv(p)
@@ -86,6 +88,7 @@ package lexer
 //@   use cntSkip(p, old(p.rawCursor), old(p.nextCursor)) at entry
 
 //@ func (*PeekingLexer).advanceToNonElided [C12 C06]
+//@   no-recursion
 //@   requires streamOK(p) && 0 <= p.rawCursor && p.rawCursor <= p.nextCursor && p.nextCursor <= eofIdx(p)
 //@   requires forall(k, p.rawCursor, p.nextCursor, elidedAt(p, k))
 //@   modifies p.nextCursor
@@ -96,6 +99,7 @@ package lexer
 //@   loop 1 decreases eofIdx(p) - p.nextCursor
 
 //@ func (*PeekingLexer).PeekAny [C12 C10 C06]
+//@   no-recursion
 //@   requires plInv(p) && match != nil
 //@   ensures p.rawCursor <= rawCursor && rawCursor <= p.nextCursor && t == p.tokens[rawCursor]
 //@   ensures eofAt(p, rawCursor) || match(p.tokens[rawCursor]) || !p.elide[p.tokens[rawCursor].Type]
@@ -105,6 +109,7 @@ package lexer
 //@   loop 1 decreases p.nextCursor - i
 
 //@ func (*PeekingLexer).FastForward [C12 C10 C06]
+//@   no-recursion
 //@   requires plInv(p)
 //@   modifies p.Checkpoint
 //@   ensures plInv(p)
@@ -133,6 +138,7 @@ package lexer
 // ---------------------------------------------------------------------------------------------
 
 //@ func ConsumeAll [C07 C15]
+//@   no-recursion
 //@   requires lexer != nil
 //@   ensures result1 == nil ==> len(result0) >= 1 && result0[len(result0)-1].Type == EOF && forall(k, 0, len(result0)-1, result0[k].Type != EOF)
 //@   ensures result1 != nil ==> result0 == nil
@@ -261,6 +267,7 @@ package lexer
 //@   use emptyFacts() at exit
 
 //@ func (*StatefulLexer).Next [C07 C04 C03 C06]
+//@   no-recursion [C06 C07]
 //@   requires slInv(l)
 //@   modifies l.stack, l.data, l.pos
 //@   ensures slInv(l)
